@@ -1,4 +1,4 @@
-import LinOp.C08.Proofs10
+import LinOp.C08.Proofs14
 import LinOp.C08.Known
 import LinOp.Generated.C08Consts
 /-!
@@ -463,16 +463,61 @@ theorem cg_tridiag_eq_lanczos_partial (N : NumOps α) (P : Params α) {n : Nat} 
         - (c1.beta / c1.alpha) • c0.r :=
   three_term N P hA iz c0 h0 h1
 
-/-
-Stretch goal, stated only: `cg_chebyshev_rate`
-  for `A`, `M⁻¹` symmetric positive definite, κ the condition number of `M⁻¹A`, and regular steps 0..j−1,
-  `errA s xs x_j ≤ (2 ((√κ − 1)/(√κ + 1))^j)² · errA s xs x_0`.
-Not proved.  Available: `cg_optimal` (x_j minimises the A-norm error over x_0 + K_j, hence over all polynomial methods
-of degree < j), `cg_invariants` / `cg_residuals_orthogonal` / `cg_directions_conjugate`, `cg_exact_at_n`.  Missing:
-(i) the spectral theorem for `M⁻¹ᐟ² A M⁻¹ᐟ²` over the abstract ordered field (an eigenbasis, to turn `q(M⁻¹A) e_0` into
-`max |q(λ_i)|`); (ii) the Chebyshev polynomial estimate `min_q max_[λmin,λmax] |q| ≤ 2((√κ−1)/(√κ+1))^j` with `q(0) = 1`.
-The bound itself is checked on the implementation against dense references on every run.
--/
+/-! ### convergence rate -/
+
+/-- **Polynomial (minimax) form of Krylov optimality** — either kernel, any symmetric linear preconditioner, any
+ordered field: let `E` be an eigenbasis of the preconditioned operator `M⁻¹A` that is orthogonal for the `A`-inner
+product (`M⁻¹A v_i = λ_i v_i`, `v_iᵀ A v_j = g_i δ_ij`, every vector a combination of the `v_i`; for `M = I` an orthonormal
+eigenbasis of `A`).  If the first `j` iterations are regular steps then for EVERY polynomial `p` with `p(0) = 1` and
+degree `≤ j`:  `‖x* − x_j‖²_A ≤ max_i p(λ_i)² · ‖x* − x_0‖²_A`  (`B` is any bound of `p(λ_i)²` on the spectrum).
+Proof: `x_0 + q(M⁻¹A) M⁻¹ r_0` with `q = (1 − p)/X` lies in `x_0 + K_j`, its error is `p(M⁻¹A) e_0`, expand in the
+eigenbasis, then `cg_optimal`. -/
+theorem cg_minimax {N : NumOps α} (hN : Lawful N) (P : Params α) (he : 0 < P.eps) {n : Nat}
+    {s : Sys α n} (hA : LinSym s.amul) (hpsd : ∀ v, 0 ≤ dot v (s.amul v))
+    (hM : ∀ u v, dot u (preF P s v) = dot (preF P s u) v) (hMl : Lin (preF P s))
+    (xs : Vec α n) (hxs : s.amul xs = (prep N P s).b) (j : Nat)
+    (hreg : ∀ i < j, Regular P s (traj N P s i))
+    {ι : Type} [Fintype ι] [DecidableEq ι] (E : AEig ι P s)
+    (p : Polynomial α) (hp0 : p.eval 0 = 1) (hpd : p.natDegree ≤ j) (B : α)
+    (hB : ∀ i, (p.eval (E.lam i)) ^ 2 ≤ B) :
+    errA s xs (traj N P s j).x ≤ B * errA s xs (traj N P s 0).x :=
+  minimax_p hN P he hA hpsd hM hMl xs hxs j hreg E p hp0 hpd B hB
+
+/-- **Minimax bound over ℝ, spectral theorem discharged** (unpreconditioned kernel): for `A` symmetric with
+`lmin·I ≤ A ≤ lmax·I` (Rayleigh-quotient form, `0 < lmin`) and EVERY real polynomial `p` with `p(0) = 1`, degree `≤ j`:
+`‖x* − x_j‖²_A ≤ max_{t ∈ [lmin, lmax]} p(t)² · ‖x* − x_0‖²_A`.  The eigenbasis is Mathlib's
+(`Matrix.IsHermitian.eigenvectorUnitary` of the matrix of the closure), its eigenvalues lie in `[lmin, lmax]`. -/
+theorem cg_minimax_real {N : NumOps ℝ} (hN : Lawful N) (P : Params ℝ) (he : 0 < P.eps) (hnp : P.precond = false)
+    {n : Nat} {s : Sys ℝ n} (hA : LinSym s.amul) (lmin lmax : ℝ) (hpos : 0 < lmin)
+    (hlo : ∀ v, lmin * dot v v ≤ dot v (s.amul v)) (hhi : ∀ v, dot v (s.amul v) ≤ lmax * dot v v)
+    (xs : Vec ℝ n) (hxs : s.amul xs = (prep N P s).b) (j : Nat)
+    (hreg : ∀ i < j, Regular P s (traj N P s i))
+    (p : Polynomial ℝ) (hp0 : p.eval 0 = 1) (hpd : p.natDegree ≤ j) (B : ℝ)
+    (hB : ∀ t, lmin ≤ t → t ≤ lmax → (p.eval t) ^ 2 ≤ B) :
+    errA s xs (traj N P s j).x ≤ B * errA s xs (traj N P s 0).x :=
+  rate_of_poly hN P he hnp hA lmin lmax hpos hlo hhi xs hxs j hreg p hp0 hpd B hB
+
+/-- **The classical Chebyshev rate** (`cg_chebyshev_rate`, unpreconditioned kernel, over ℝ, FULL): let `A` be symmetric
+with `lmin·‖v‖² ≤ vᵀAv ≤ lmax·‖v‖²`, `0 < lmin ≤ lmax`, `κ = lmax/lmin`, `A x* = b̂`.  If the first `j` iterations of the
+column are regular steps (not frozen, `pᵀAp ≥ eps`, `rᵀr ≥ eps` — i.e. above the safe-division floors of the statement) then
+`‖x* − x_j‖_A ≤ 2 ((√κ − 1)/(√κ + 1))^j ‖x* − x_0‖_A`   (`rho lmin lmax = (√κ−1)/(√κ+1)`, `errA` is the squared A-norm),
+for every size `n` and every `j`.  With the default zero initial guess `x_0 = 0` this is the bound of the property
+statement.  Ingredients: `cg_optimal`, the spectral theorem (Mathlib), and the shifted/scaled Chebyshev polynomial
+`T_j((lmax+lmin−2t)/(lmax−lmin)) / T_j((lmax+lmin)/(lmax−lmin))` with Mathlib's `|T_j| ≤ 1` on `[−1,1]` and
+`T_j((y+y⁻¹)/2) = (y^j+y^{−j})/2`. -/
+theorem cg_chebyshev_rate {N : NumOps ℝ} (hN : Lawful N) (P : Params ℝ) (he : 0 < P.eps) (hnp : P.precond = false)
+    {n : Nat} {s : Sys ℝ n} (hA : LinSym s.amul) (lmin lmax : ℝ) (hpos : 0 < lmin) (hle : lmin ≤ lmax)
+    (hlo : ∀ v, lmin * dot v v ≤ dot v (s.amul v)) (hhi : ∀ v, dot v (s.amul v) ≤ lmax * dot v v)
+    (xs : Vec ℝ n) (hxs : s.amul xs = (prep N P s).b) (j : Nat)
+    (hreg : ∀ i < j, Regular P s (traj N P s i)) :
+    Real.sqrt (errA s xs (traj N P s j).x)
+        ≤ 2 * ((Real.sqrt (lmax / lmin) - 1) / (Real.sqrt (lmax / lmin) + 1)) ^ j
+            * Real.sqrt (errA s xs (traj N P s 0).x) ∧
+    errA s xs (traj N P s j).x
+        ≤ (2 * ((Real.sqrt (lmax / lmin) - 1) / (Real.sqrt (lmax / lmin) + 1)) ^ j) ^ 2
+            * errA s xs (traj N P s 0).x :=
+  ⟨chebyshev_rate_norm hN P he hnp hA lmin lmax hpos hle hlo hhi xs hxs j hreg,
+   chebyshev_rate_sq hN P he hnp hA lmin lmax hpos hle hlo hhi xs hxs j hreg⟩
 
 /-! ### the hypotheses are satisfiable -/
 
@@ -507,5 +552,22 @@ example : (traj realOps realParams realSys 1).x = fun _ => (1 / 2 : ℝ) := by
     simpa [realSys] using this
   exact (cg_exact_at_n realOps_lawful realParams (by norm_num [realParams]) realSys_linSym
     (preF_sym_of_noprecond realParams realSys rfl) _ hb hreg).2.2 hinj
+
+/-- The hypotheses of `cg_chebyshev_rate` are satisfiable with `lmin < lmax` (`κ = 3/2`, the Chebyshev branch) by a
+regular trajectory: the system `2·x = 1` over ℝ with the default thresholds, `2·‖v‖² ≤ vᵀAv ≤ 3·‖v‖²`, one regular step. -/
+example : errA realSys (fun _ => (1 / 2 : ℝ)) (traj realOps realParams realSys 1).x
+    ≤ (2 * ((Real.sqrt (3 / 2) - 1) / (Real.sqrt (3 / 2) + 1)) ^ 1) ^ 2
+        * errA realSys (fun _ => (1 / 2 : ℝ)) (traj realOps realParams realSys 0).x := by
+  have hreg : ∀ j < 1, Regular realParams realSys (traj realOps realParams realSys j) := by
+    intro j hj
+    have : j = 0 := by omega
+    subst this; exact realSys_regular
+  have hb : realSys.amul (fun _ => (1 / 2 : ℝ)) = (prep realOps realParams realSys).b := by
+    funext i; simp [realSys, prep, realParams, realOps, norm2, dot_eq]
+  have hAv : ∀ v : Vec ℝ 1, dot v (realSys.amul v) = 2 * dot v v := by
+    intro v; simp [realSys, dot_eq]; ring
+  have hnn : ∀ v : Vec ℝ 1, 0 ≤ dot v v := dot_self_nonneg
+  exact (cg_chebyshev_rate realOps_lawful realParams (by norm_num [realParams]) rfl realSys_linSym 2 3
+    (by norm_num) (by norm_num) (fun v => by rw [hAv]) (fun v => by rw [hAv]; linarith [hnn v]) _ hb 1 hreg).2
 
 end LinOp.C08
